@@ -1,0 +1,14 @@
+//go:build verif
+
+package timeinterval
+
+import "time"
+
+// VerifDaysInMonth exposes daysInMonth to the verification harness (/verif, property C15).
+func VerifDaysInMonth(t time.Time) int { return daysInMonth(t) }
+
+// VerifClamp exposes clamp to the verification harness.
+func VerifClamp(n, lo, hi int) int { return clamp(n, lo, hi) }
+
+// VerifParseTime exposes parseTime to the verification harness.
+func VerifParseTime(in string) (int, error) { return parseTime(in) }
